@@ -105,7 +105,10 @@ let holds _ cl impl =
       let rec ties = function [] -> false | g :: r -> List.exists (fun h -> Model.Z.eqb h.Model.g_eff g.Model.g_eff) r || ties r in
       if c.algo = Model.ABnB && mixed then
         "fail bnb-feerate-high-from-largest-utxo: complete search reported but a subset with a strictly better waste exists (waste pruning keyed on utxo_pool[0] only)"
-      else if c.algo = Model.ABnB && ties og then
+      else if c.algo = Model.ABnB && ties og
+              && Model.Z.ltb c.prm.Model.p_maxw (List.fold_left (fun a g -> Model.Z.add a g.Model.g_weight) Model.Z0 og) then
+        (* only when the weight limit can bind at all: with an unconstraining limit a tie-related
+           optimality failure is NOT the recorded finding and stays a plain failure *)
         "fail bnb-clone-skip-ignores-weight: complete search reported but a subset with a strictly better waste exists (a clone tied on effective value was skipped although only it fits the weight limit)"
       else "fail complete search reported but a subset with a strictly better objective exists"
     else "ok"
